@@ -576,3 +576,22 @@ def run(ctx) -> None:  # noqa: F811
     n = memo2.check(ctx, modules={"abtem.measurements", "abtem.detectors"})
     ctx.ok("R-CACHEKEY", "scan", "abtem/", f"{n} cache stores found in the anchored modules; positive control matched")
     _inner_run(ctx)
+
+
+# ---- added after the seeded change C12-r3seed0: the bin index of an integration limit
+_inner_run_c12b = run
+
+
+def run(ctx) -> None:  # noqa: F811
+    from ..report import OnlyConstructs
+    from . import c13
+
+    ctx.rule("R-AXISMETA", "(the rule of C13, kept for the detector-agreement property) PolarMeasurements.integrate "
+             "turns a limit into a bin index with (limit - offset) / sampling, offset and sampling being what the "
+             "polar axes publish — the same affine map the Flexible detector used to bin the intensity.  An index "
+             "computed as limit / sampling - offset agrees only for offset 0 or unit sampling: integrating a "
+             "FlexibleAnnularDetector measurement with inner != 0 and step_size != 1 then covers other bins than the "
+             "AnnularDetector with the same limits")
+    ctx.rule("R-AXISFAMILY", "(C13) the radial and the azimuthal index terms are the same formula up to renaming")
+    c13._inner_run_c13(OnlyConstructs(ctx, ("abtem.measurements.PolarMeasurements.integrate",)))
+    _inner_run_c12b(ctx)
